@@ -56,14 +56,15 @@ impl ValidatorSync for LinePatternValidator {
                         continue;
                     }
                     if !re.is_match(trimmed_line) {
-                        let violation_line_number = block_with_context
+                        let violation_line_number =
+                            block_with_context.block.content_line_number(line_number);
+                        let column_offset = block_with_context
                             .block
-                            .start_tag_position_range
-                            .start()
-                            .line
-                            + line_number;
-                        let line_character_start =
-                            trimmed_line.as_ptr() as usize - line.as_ptr() as usize + 1; // Start position is 1-based.
+                            .content_line_column_offset(line_number);
+                        let line_character_start = trimmed_line.as_ptr() as usize
+                            - line.as_ptr() as usize
+                            + 1
+                            + column_offset; // Start position is 1-based.
                         let line_character_end = line_character_start + trimmed_line.len() - 1; // End position is 1-based and inclusive.
                         violations
                             .entry(file_path.clone())
